@@ -128,7 +128,16 @@ theorem core_cbCall (c : Ctx) (cb : Cb) (n : Node) (s : St) (obs : List Obs) (fr
 
 @[simp] theorem core_nodeDefault (c : Ctx) (s : St) (obs : List Obs) (d : DagRef) (n : Node) (below : List Frame)
     (kw : Kwargs) : (nodeDefault c s obs d n below kw).1.core = s.core := by
-  simp [nodeDefault]
+  unfold nodeDefault
+  split
+  · simp
+  · split <;> simp
+
+/-- a `get_default` that returns: the default is the node's value -/
+theorem nodeDefault_of_none (c : Ctx) (s : St) (obs : List Obs) (d : DagRef) (n : Node) (below : List Frame)
+    (kw : Kwargs) (h : c.P.dfltRaise n = none) :
+    nodeDefault c s obs d n below kw = nodeSuccess c s (obs ++ [.dflt n kw]) d n below (c.P.dflt n kw) := by
+  simp [nodeDefault, h]
 
 @[simp] theorem core_nodeSleep (c : Ctx) (s : St) (obs : List Obs) (d : DagRef) (n : Node) (force : Bool)
     (below : List Frame) (k : Nat) (kw : Kwargs) (inv : Nat) :
